@@ -2,6 +2,8 @@
 """saveseed.py <id> <property> <worktree> <demo-dir> <regex> <needs> <caught>: keep a confirmed seeded change under /verif/seeded/<id>/."""
 import json, os, shutil, sys
 sid, prop, wt, ddir, rx, need, caught = sys.argv[1:8]
+ROUND = os.environ.get("SEED_ROUND", "2")
+HOW = os.environ.get("SEED_HOW", "tools/seed2.sh %s %s '%s' <checks>: seedconfirm, then git -C /repo apply patch.diff, tools/check <ids>, git -C /repo checkout -- .")
 d = os.path.join("/verif/seeded", sid)
 os.makedirs(d, exist_ok=True)
 shutil.copy(os.path.join(wt, "seed_out", "patch.diff"), d)
@@ -10,10 +12,10 @@ if os.path.exists(os.path.join(wt, "seed_out", "notes.md")):
     shutil.copy(os.path.join(wt, "seed_out", "notes.md"), d)
 json.dump({
     "id": sid, "breaks_property": prop, "needs_to_manifest": need,
-    "produced_by": "fresh sub-agent (round 2) given only the property text and its own scratch worktree (%s)" % wt,
+    "produced_by": "fresh sub-agent (round " + ROUND + ") given only the property text and its own scratch worktree (%s)" % wt,
     "demo": "demo_test.go goes into %s of the repository; go test -mod=mod -vet=off -count=1 -run '%s' ." % (ddir, rx),
     "confirmed": "by me in the scratch worktree with tools/seedconfirm.sh: demo passes on the untouched tree, fails with patch.diff applied, "
                  "pinned suite (217 tests) passes with it",
-    "what_i_ran": "tools/seed2.sh %s %s '%s' <checks>: seedconfirm, then git -C /repo apply patch.diff, tools/check <ids>, git -C /repo checkout -- ." % (wt, ddir, rx),
+    "what_i_ran": HOW % (wt, ddir, rx),
     "caught_by": caught}, open(os.path.join(d, "meta.json"), "w"), indent=1)
 print("saved", d)
